@@ -171,10 +171,29 @@ impl CaseInput for ReqCase {
             }
         };
         let id = cred(r);
-        let secret = if r.chance(2, 3) { Some(cred(r)) } else { None };
+        // rarely a LONG secret (a PEM-style or generated 12 kB credential, or many astral-plane characters): the Basic header
+        // is one unbroken base64 text of the whole `id:secret`
+        let secret = if r.chance(1, 40) {
+            Some(match r.below(3) {
+                0 => gen::alnum(r, 12_289),
+                1 => "\u{1F511}".repeat(700),
+                _ => format!("{}:{}", gen::alnum(r, 8_191), gen::alnum(r, 70)),
+            })
+        } else if r.chance(2, 3) {
+            Some(cred(r))
+        } else {
+            None
+        };
         let basic = r.chance(1, 2);
         let client_redirect = if r.chance(1, 2) { Some(gen::redirect_text(r)) } else { None };
-        let override_redirect = if kind == 0 && r.chance(1, 2) { Some(gen::redirect_text(r)) } else { None };
+        let override_redirect = if kind == 0 && r.chance(1, 2) {
+            match (&client_redirect, r.chance(1, 4)) {
+                (Some(d), true) => gen::redirect_variant(r, d).or_else(|| Some(gen::redirect_text(r))),
+                _ => Some(gen::redirect_text(r)),
+            }
+        } else {
+            None
+        };
         let scopes = if matches!(kind, 1 | 2 | 3 | 4) {
             let n = *r.pick(&[0u64, 0, 1, 1, 2, 3, 5]);
             (0..n).map(|_| gen::mixed(r)).collect()
